@@ -62,6 +62,14 @@ def mk_value(spec):
     raise ValueError(spec)
 
 
+class Corner(enum.Enum):
+    """A designer's string-valued enum whose member names differ from their values."""
+    TYPICAL = "tt"
+    FAST = "ff_1p98v"
+    SAME = "SAME"
+    lower = "LOWER"
+
+
 def expected(spec, scalar_field=True):
     """What the exported parameter must denote: ("num", {acceptable Fractions}, prefix-exp or None) | ("text", s) | ("absent",)."""
     k = spec[0]
@@ -217,7 +225,7 @@ def _ext_case(item):
 
     style, spec = item
     try:
-        v = mk_value(spec) if spec[0] != "enum" else spec[3]
+        v = mk_value(spec) if spec[0] != "enum" else Corner[spec[2]]
         ports = [h.Port(name="a"), h.Port(name="b")]
         if style == "dict":
             e = h.ExternalModule(name="E", port_list=ports, paramtype=dict, domain="hv")
@@ -302,6 +310,8 @@ def run(ctx):
             ext_items.append((style, v))
         ext_items.append((style, ("none",))) if style == "dict" else None
     ext_items = [x for x in ext_items if x is not None]
+    # string-valued enums reach the package as the member's value
+    ext_items += [(style, ("enum", m.value, m.name)) for style in ("dict", "pc_typed") for m in Corner]
     res = ctx.pmap(_ext_case, ext_items, chunk=100)
     for it, r in zip(ext_items, res):
         account(ctx, "external:" + it[0], "E", "p", it[1], r)
